@@ -230,16 +230,17 @@ func init() {
 	Register("C02", func(c *Ctx) {
 		c.Out.Rule = "every schedule (bounded preemptions) x every sequence of fetch outcomes {cacheable, uncacheable, error, proxy timeout, panic} (data choice at each origin call; quick: at most 2 non-cacheable outcomes per run, thorough: unbounded) of N concurrent GETs on one key, optionally with a concurrent purge; oracle = deadlock/livelock detector, entry not left fetching, no parked channel, epilogue requests served; non-trivial = deviating schedule; distinct = per-request observation vectors"
 		c.Out.Assume = []string{"sequentially consistent memory; scheduling points at every lock/rwlock/sync.Map/channel/clock/origin operation"}
-		b := vsched.Bounds{Preempt: 2, Tick: 0, Data: 2, Total: 3}
-		b2 := vsched.Bounds{Preempt: 2, Tick: 0, Data: 2, Total: 3}
+		b := vsched.Bounds{Preempt: 2, Tick: 1, Data: 2, Total: 3}
+		b2 := vsched.Bounds{Preempt: 2, Tick: 1, Data: 2, Total: 3}
 		if c.Thorough() {
-			b = vsched.Bounds{Preempt: 3, Tick: 0, Data: -1, Total: -1}
-			b2 = vsched.Bounds{Preempt: 2, Tick: 0, Data: -1, Total: -1}
+			b = vsched.Bounds{Preempt: 3, Tick: 1, Data: -1, Total: -1}
+			b2 = vsched.Bounds{Preempt: 2, Tick: 1, Data: -1, Total: -1}
 		}
 		c.RunSched(c02Scenario(c, c02Params{Name: "outcomes3", Threads: 3, Reqs: 1, Bounds: b}))
 		c.RunSched(c02Scenario(c, c02Params{Name: "outcomes2-purge", Threads: 2, Reqs: 1, Purge: true, Bounds: b}))
 		c.RunSched(c02Scenario(c, c02Params{Name: "outcomes2x2", Threads: 2, Reqs: 2, Bounds: b2}))
 		c.RunSched(c02Core(c, "core-next-outcomes3", 3, b))
+		c.RunSched(c02Scenario(c, c02Params{Name: "cacheable3-purge", Threads: 3, Reqs: 1, Purge: true, Bounds: vsched.Bounds{Preempt: 2, Tick: 1, Data: 0, Total: 2}}))
 		if c.Thorough() {
 			c.RunSched(c02Scenario(c, c02Params{Name: "outcomes4", Threads: 4, Reqs: 1, Bounds: vsched.Bounds{Preempt: 2, Tick: 0, Data: 3, Total: 4}}))
 			c.RunSched(c02Scenario(c, c02Params{Name: "outcomes3-purge", Threads: 3, Reqs: 1, Purge: true, Bounds: b2}))
